@@ -20,6 +20,9 @@ RULE = (
     'factory styles and scanned by dawgie.pl.scan. Non-trivial: >=3 '
     'algorithms and (a diamond, or a state-vector/value-level reference, or '
     'a feedback reference). Distinct = SHA-1 of the canonical spec.'
+    ' Part layout: the same with class-scanned packages that bring their own'
+    ' factory function, packages that say DAWGIE_IGNORE = False and a neste'
+    'd base package (org.engine). '
 )
 ASSUMPTIONS = [
     'names contain no "." (architecture rule 4) and algorithm names are '
